@@ -81,6 +81,8 @@ def api_ops(mod):
         "serialize": lambda c: XmlSerializer(context=c, config=cfg).render(obj_c),
         "json_noclass": lambda c: JsonParser(context=c).from_string('{"z": "k"}'),
         "find_derived": lambda c: [cb.id_of(t) for t in list(c.find_types("{urn:a}Derived"))],
+        # a MISS: looking a name up must stay a read (another thread may be walking the index)
+        "find_unknown": lambda c: [cb.id_of(t) for t in list(c.find_types("{urn:x}Unknown"))],
     }
 
 
@@ -225,11 +227,11 @@ def run(ctx):
 
     # 3. systematic exploration of API-level operations + 4. trace validation
     traces: list = []
-    names = ["parse_xsi", "parse_noclass", "serialize", "json_noclass", "find_derived"]
+    names = ["parse_xsi", "parse_noclass", "serialize", "json_noclass", "find_derived", "find_unknown"]
     pairs = [(a, b) for i, a in enumerate(names) for b in names[i:]]
     n = explore_api(ctx, ms, scheduler, 2, pairs, ctx.pick(2, 3), ctx.pick(40, 600), traces)
     triples = [("parse_xsi", "parse_noclass", "serialize"), ("parse_xsi", "find_derived", "json_noclass"),
-               ("parse_noclass", "parse_noclass", "find_derived")]
+               ("parse_noclass", "parse_noclass", "find_derived"), ("json_noclass", "find_unknown", "find_unknown")]
     n += explore_api(ctx, ms, scheduler, 3, triples, 2, ctx.pick(60, 1500), traces)
     # seeded random schedules with more threads
     n += explore_random(ctx, ms, scheduler, ctx.pick(30, 400), traces)
